@@ -2,6 +2,9 @@ import MindsVerif.Model.TSSpec
 /-! Lemmas for C15 (core Lean only). -/
 namespace MindsVerif.TS
 
+set_option linter.unusedSectionVars false
+variable {α : Type} [DecidableEq α] [VOrd α]
+
 /-! ### three-valued AND, selection -/
 
 theorem and3_true (x y : Option Bool) : (and3 x y == some true) = ((x == some true) && (y == some true)) := by
@@ -13,55 +16,107 @@ theorem and3_true (x y : Option Bool) : (and3 x y == some true) = ((x == some tr
     | none => rfl
     | some b => cases b <;> rfl
 
-theorem sel_and (p : List Int) (a b : W) (r : Row) :
-    sel p (.bin .and a b) r = (sel p a r && sel p b r) := by
+theorem sel_and (e : Env α) (a b : W α) (r : Row α) :
+    sel e (.bin .and a b) r = (sel e a r && sel e b r) := by
   simp only [sel, ev]; exact and3_true _ _
 
-theorem sel_notNull (p : List Int) (r : Row) : sel p notNull r = r.t.isSome := by
+theorem sel_notNull (e : Env α) (r : Row α) : sel e notNull r = r.t.isSome := by
   simp [sel, notNull, ev, val]
 
-theorem sel_addNotNull_some (p : List Int) (c : W) (r : Row) :
-    sel p (addNotNull (some c)) r = (sel p c r && r.t.isSome) := by
+theorem sel_addNotNull_some (e : Env α) (c : W α) (r : Row α) :
+    sel e (addNotNull (some c)) r = (sel e c r && r.t.isSome) := by
   simp only [addNotNull, sel_and, sel_notNull]
 
-theorem sel_time_cmp (p : List Int) (r : Row) (c : Int) :
-    sel p (.bin .gt (.ident .time) (.const c)) r = onTime (fun v => decide (v > c)) r ∧
-    sel p (.bin .ge (.ident .time) (.const c)) r = onTime (fun v => decide (v ≥ c)) r ∧
-    sel p (.bin .lt (.ident .time) (.const c)) r = onTime (fun v => decide (v < c)) r ∧
-    sel p (.bin .le (.ident .time) (.const c)) r = onTime (fun v => decide (v ≤ c)) r := by
+theorem sel_time_cmp (e : Env α) (r : Row α) (c : α) :
+    sel e (.bin .gt (.ident .time) (.const c)) r = onTime (fun v => vgt v c) r ∧
+    sel e (.bin .ge (.ident .time) (.const c)) r = onTime (fun v => vge v c) r ∧
+    sel e (.bin .lt (.ident .time) (.const c)) r = onTime (fun v => vlt v c) r ∧
+    sel e (.bin .le (.ident .time) (.const c)) r = onTime (fun v => vle v c) r := by
   cases h : r.t <;> simp [sel, ev, val, cmp2, onTime, h]
 
-theorem sel_time_btw (p : List Int) (r : Row) (a b : Int) :
-    sel p (.btw (.ident .time) (.const a) (.const b)) r = onTime (fun v => decide (a ≤ v) && decide (v ≤ b)) r := by
+theorem sel_time_btw (e : Env α) (r : Row α) (a b : α) :
+    sel e (.btw (.ident .time) (.const a) (.const b)) r = onTime (fun v => vge v a && vle v b) r := by
   cases h : r.t <;> simp [sel, ev, val, cmp2, onTime, h, and3]
   rename_i v
-  by_cases h1 : a ≤ v <;> by_cases h2 : v ≤ b <;> simp [h1, h2]
+  cases vge v a <;> cases vle v b <;> simp [and3]
 
-theorem sel_inPartAt (p : List Int) (r : Row) (i : Nat) :
-    sel p (.bin .eq (.ident (.grp i)) (.var i)) r = inPartAt p r i := by
+theorem varEq_aux (ns : Bool) (x q : Option α) (h : ns = true ∨ q.isSome = true) :
+    ((if ns = true then some (decide (x = q)) else cmp2 veq x q) == some true) = decide (x = q) := by
+  cases ns with
+  | true => by_cases hx : x = q <;> simp [hx]
+  | false =>
+    cases q with
+    | none => simp at h
+    | some b =>
+      cases x with
+      | none => simp [cmp2]
+      | some a => by_cases hab : a = b <;> simp [cmp2, veq, hab]
+
+/-- the `$var` conjunct selects the partition when the executor is null-safe or the record value is not NULL -/
+theorem sel_inPartAt (e : Env α) (r : Row α) (i : Nat)
+    (h : e.ns = true ∨ ((e.p[i]?).join).isSome = true) :
+    sel e (.bin .eq (.ident (.grp i)) (.var i)) r = inPartAt e r i := by
   simp only [sel, ev, val, inPartAt]
-  cases (r.g[i]?).join <;> cases p[i]? <;> simp [cmp2]
+  exact varEq_aux _ _ _ h
 
-theorem sel_injectVars (p : List Int) (r : Row) : ∀ (n i : Nat) (c : W),
-    sel p (injectVars n i c) r = (sel p c r && inPartFrom p r n i)
-  | 0, _, _ => by simp [injectVars, inPartFrom]
-  | n + 1, i, c => by
-    rw [injectVars, sel_injectVars p r n (i + 1), sel_and, sel_inPartAt, inPartFrom, Bool.and_assoc]
+theorem sel_injectVars (e : Env α) (r : Row α) : ∀ (n i : Nat) (c : W α),
+    (e.ns = true ∨ nonNullFrom e n i = true) →
+    sel e (injectVars n i c) r = (sel e c r && inPartFrom e r n i)
+  | 0, _, _, _ => by simp [injectVars, inPartFrom]
+  | n + 1, i, c, h => by
+    have h1 : e.ns = true ∨ ((e.p[i]?).join).isSome = true := by
+      rcases h with h | h
+      · exact Or.inl h
+      · simp only [nonNullFrom, Bool.and_eq_true] at h; exact Or.inr h.1
+    have h2 : e.ns = true ∨ nonNullFrom e n (i + 1) = true := by
+      rcases h with h | h
+      · exact Or.inl h
+      · simp only [nonNullFrom, Bool.and_eq_true] at h; exact Or.inr h.2
+    rw [injectVars, sel_injectVars e r n (i + 1) _ h2, sel_and, sel_inPartAt e r i h1, inPartFrom,
+      Bool.and_assoc]
+
+/-- with plain SQL equality and a NULL in the partition record nothing is selected -/
+theorem sel_injectVars_null (e : Env α) (r : Row α) (hns : e.ns = false) : ∀ (n i : Nat) (c : W α),
+    nonNullFrom e n i = false → sel e (injectVars n i c) r = false
+  | 0, _, _, h => by simp [nonNullFrom] at h
+  | n + 1, i, c, h => by
+    rw [injectVars]
+    by_cases hi : ((e.p[i]?).join).isSome = true
+    · have : nonNullFrom e n (i + 1) = false := by
+        simp only [nonNullFrom, hi, Bool.true_and] at h; exact h
+      exact sel_injectVars_null e r hns n (i + 1) _ this
+    · have hnone : (e.p[i]?).join = none := by
+        cases hq : (e.p[i]?).join <;> simp_all
+      -- the conjunct `g_i = $var` is never TRUE, and it survives the remaining injections
+      have hc : sel e (.bin .and c (.bin .eq (.ident (.grp i)) (.var i))) r = false := by
+        rw [sel_and]
+        have : sel e (.bin .eq (.ident (.grp i)) (.var i)) r = false := by
+          simp [sel, ev, val, hns, hnone, cmp2]
+        simp [this]
+      exact sel_inject_false e r n (i + 1) _ hc
+where
+  sel_inject_false (e : Env α) (r : Row α) : ∀ (n i : Nat) (c : W α), sel e c r = false →
+      sel e (injectVars n i c) r = false
+    | 0, _, _, h => by simpa [injectVars] using h
+    | n + 1, i, c, h => by
+      rw [injectVars]
+      exact sel_inject_false e r n (i + 1) _ (by rw [sel_and, h, Bool.false_and])
 
 
 /-! ### ORDER BY t DESC LIMIT n -/
 
-theorem tge_trans (a b c : Row) : tge a b = true → tge b c = true → tge a c = true := by
+theorem tge_trans (a b c : Row α) : tge a b = true → tge b c = true → tge a c = true := by
   unfold tge
   cases a.t <;> cases b.t <;> cases c.t <;> simp
-  omega
+  exact fun h1 h2 => VOrd.le_trans _ _ _ h2 h1
 
-theorem tge_total (a b : Row) : (tge a b || tge b a) = true := by
+theorem tge_total (a b : Row α) : (tge a b || tge b a) = true := by
   unfold tge
   cases a.t <;> cases b.t <;> simp
-  omega
+  rename_i x y
+  exact (VOrd.le_total x y |> fun h => by simpa [Bool.or_eq_true, Or.comm] using h)
 
-theorem isLastW_take_sort (n : Nat) (xs : List Row) : IsLastW n xs ((xs.mergeSort tge).take n) := by
+theorem isLastW_take_sort (n : Nat) (xs : List (Row α)) : IsLastW n xs ((xs.mergeSort tge).take n) := by
   refine ⟨(xs.mergeSort tge).drop n, ?_, ?_, ?_⟩
   · rw [List.take_append_drop]; exact List.mergeSort_perm xs tge
   · rw [List.length_take, (List.mergeSort_perm xs tge).length_eq]
@@ -69,15 +124,15 @@ theorem isLastW_take_sort (n : Nat) (xs : List Row) : IsLastW n xs ((xs.mergeSor
     rw [← List.take_append_drop n (xs.mergeSort tge), List.pairwise_append] at hs
     exact hs.2.2
 
-theorem evalSel_unlimited (p : List Int) (T : List Row) (c : W) (f : Row → Bool)
-    (hf : ∀ r, sel p c r = f r) : (evalSel p T ⟨c, none⟩).Perm (T.filter f) := by
-  have : sel p c = f := funext hf
+theorem evalSel_unlimited (e : Env α) (T : List (Row α)) (c : W α) (f : Row α → Bool)
+    (hf : ∀ r, sel e c r = f r) : (evalSel e T ⟨c, none⟩).Perm (T.filter f) := by
+  have : sel e c = f := funext hf
   simp only [evalSel, limitTake, this]
   exact List.mergeSort_perm _ _
 
-theorem evalSel_limited (p : List Int) (T : List Row) (c : W) (n : Nat) (f : Row → Bool)
-    (hf : ∀ r, sel p c r = f r) : IsLastW n (T.filter f) (evalSel p T ⟨c, some n⟩) := by
-  have : sel p c = f := funext hf
+theorem evalSel_limited (e : Env α) (T : List (Row α)) (c : W α) (n : Nat) (f : Row α → Bool)
+    (hf : ∀ r, sel e c r = f r) : IsLastW n (T.filter f) (evalSel e T ⟨c, some n⟩) := by
+  have : sel e c = f := funext hf
   simp only [evalSel, limitTake, this]
   exact isLastW_take_sort _ _
 
@@ -85,13 +140,13 @@ theorem evalSel_limited (p : List Int) (T : List Row) (c : W) (n : Nat) (f : Row
 /-! ### partition-filter leaves and AND-trees -/
 
 /-- the three shapes of a partition filter -/
-inductive PFShape (nG : Nat) : W → Prop
-  | cmp (op : Op) (i : Nat) (c : Int) (hi : i < nG) (hop : isCmp op = true) :
+inductive PFShape (nG : Nat) : W α → Prop
+  | cmp (op : Op) (i : Nat) (c : α) (hi : i < nG) (hop : isCmp op = true) :
       PFShape nG (.bin op (.ident (.grp i)) (.const c))
-  | inn (i : Nat) (vs : List Int) (hi : i < nG) : PFShape nG (.bin .inn (.ident (.grp i)) (.tuple vs))
-  | btw (i : Nat) (a b : Int) (hi : i < nG) : PFShape nG (.btw (.ident (.grp i)) (.const a) (.const b))
+  | inn (i : Nat) (vs : List α) (hi : i < nG) : PFShape nG (.bin .inn (.ident (.grp i)) (.tuple vs))
+  | btw (i : Nat) (a b : α) (hi : i < nG) : PFShape nG (.btw (.ident (.grp i)) (.const a) (.const b))
 
-theorem isPF_shape {nG : Nat} {w : W} (h : isPF nG w = true) : PFShape nG w := by
+theorem isPF_shape {nG : Nat} {w : W α} (h : isPF nG w = true) : PFShape nG w := by
   unfold isPF at h
   split at h
   · simp at h; exact .cmp _ _ _ h.1 h.2
@@ -99,30 +154,30 @@ theorem isPF_shape {nG : Nat} {w : W} (h : isPF nG w = true) : PFShape nG w := b
   · simp at h; exact .btw _ _ _ h
   · simp at h
 
-theorem PFShape.not_and {nG : Nat} {w : W} (h : PFShape nG w) : ∀ l r, w ≠ .bin .and l r := by
+theorem PFShape.not_and {nG : Nat} {w : W α} (h : PFShape nG w) : ∀ l r, w ≠ .bin .and l r := by
   intro l r
   cases h with
   | cmp op i c hi hop => intro e; injection e with e1; subst e1; simp [isCmp] at hop
   | inn i vs hi => intro e; injection e with e1; cases e1
   | btw i a b hi => intro e; cases e
 
-theorem pfTree_leaf {nG : Nat} {w : W} (hna : ∀ l r, w ≠ .bin .and l r) : pfTree nG w = isPF nG w := by
+theorem pfTree_leaf {nG : Nat} {w : W α} (hna : ∀ l r, w ≠ .bin .and l r) : pfTree nG w = isPF nG w := by
   unfold pfTree
   split
   · exact absurd rfl (hna _ _)
   · rfl
 
-theorem TC.toW_not_and (tc : TC) : ∀ l r, tc.toW ≠ .bin .and l r := by
+theorem TC.toW_not_and (tc : TC α) : ∀ l r, tc.toW ≠ .bin .and l r := by
   intro l r; cases tc <;> simp [TC.toW]
 
-theorem TC.not_pf (nG : Nat) (tc : TC) : isPF nG tc.toW = false := by
+theorem TC.not_pf (nG : Nat) (tc : TC α) : isPF nG tc.toW = false := by
   cases tc <;> rfl
 
-theorem TC.not_pfTree (nG : Nat) (tc : TC) : pfTree nG tc.toW = false := by
+theorem TC.not_pfTree (nG : Nat) (tc : TC α) : pfTree nG tc.toW = false := by
   rw [pfTree_leaf (tc.toW_not_and)]; exact tc.not_pf nG
 
 /-- induction principle for AND-trees of partition filters -/
-theorem pfTree_induction {nG : Nat} {P : W → Prop}
+theorem pfTree_induction {nG : Nat} {P : W α → Prop}
     (hleaf : ∀ w, PFShape nG w → P w)
     (hand : ∀ l r, pfTree nG l = true → pfTree nG r = true → P l → P r → P (.bin .and l r)) :
     ∀ w, pfTree nG w = true → P w := by
@@ -144,7 +199,7 @@ theorem pfTree_induction {nG : Nat} {P : W → Prop}
       | (simp [pfTree, isPF] at h)
 
 /-- induction principle for AND-trees with exactly one time leaf -/
-theorem tcTree_induction {nG : Nat} {tf : W} {P : W → Prop}
+theorem tcTree_induction {nG : Nat} {tf : W α} {P : W α → Prop}
     (hleaf : P tf)
     (handL : ∀ l r, tcTree nG tf l = true → pfTree nG r = true → P l → P (.bin .and l r))
     (handR : ∀ l r, pfTree nG l = true → tcTree nG tf r = true → P r → P (.bin .and l r)) :
@@ -172,15 +227,15 @@ theorem tcTree_induction {nG : Nat} {tf : W} {P : W → Prop}
 /-! ### the ts_utils functions on the domain -/
 
 section pf
-variable {nG : Nat} (tc : TC)
+variable {nG : Nat} (tc : TC α)
 
-theorem PFShape.ne_tc {w : W} (h : PFShape nG w) : w ≠ tc.toW := by
+theorem PFShape.ne_tc {w : W α} (h : PFShape nG w) : w ≠ tc.toW := by
   intro e
   have h1 := tc.not_pf nG
   rw [← e] at h1
   cases h <;> simp_all [isPF, isCmp]
 
-theorem pf_findTF : ∀ w, pfTree nG w = true → findTF w = .none := by
+theorem pf_findTF : ∀ w : W α, pfTree nG w = true → findTF w = .none := by
   apply pfTree_induction
   · intro w h
     cases h with
@@ -189,13 +244,13 @@ theorem pf_findTF : ∀ w, pfTree nG w = true → findTF w = .none := by
     | btw i a b hi => simp [findTF, isTimeIdent]
   · intro l r _ _ hl hr; simp [findTF, hl, hr, FT.merge]
 
-theorem pf_identOk {w : W} (h : pfTree nG w = true) : identOk nG w = true := by
+theorem pf_identOk {w : W α} (h : pfTree nG w = true) : identOk nG w = true := by
   cases w <;> simp_all [identOk, pfTree, isPF]
 
-theorem pf_isOp {w : W} (h : pfTree nG w = true) : w.isOperation = true := by
+theorem pf_isOp {w : W α} (h : pfTree nG w = true) : w.isOperation = true := by
   cases w <;> simp_all [W.isOperation, pfTree, isPF]
 
-theorem pf_validate : ∀ w, pfTree nG w = true → validate nG w = true := by
+theorem pf_validate : ∀ w : W α, pfTree nG w = true → validate nG w = true := by
   apply pfTree_induction
   · intro w h
     cases h with
@@ -204,7 +259,22 @@ theorem pf_validate : ∀ w, pfTree nG w = true → validate nG w = true := by
     | btw i a b hi => simp [validate, identOk, allowedCol, hi]
   · intro l r h1 h2 hl hr; simp [validate, allowedOp, pf_identOk h1, pf_identOk h2, pf_isOp h1, pf_isOp h2, hl, hr]
 
-theorem pf_replaceTF (new : W) : ∀ w, pfTree nG w = true → replaceTF tc.toW new w = w := by
+theorem pf_validateDeep : ∀ w : W α, pfTree nG w = true → validateDeep nG w = true := by
+  apply pfTree_induction
+  · intro w h
+    cases h with
+    | cmp op i c hi hop => cases op <;> simp_all [validateDeep, allowedOp, identOk, allowedCol, isCmp]
+    | inn i vs hi => simp [validateDeep, allowedOp, identOk, allowedCol, hi]
+    | btw i a b hi => simp [validateDeep, identOk, allowedCol, hi]
+  · intro l r h1 h2 hl hr
+    simp [validateDeep, allowedOp, pf_identOk h1, pf_identOk h2, pf_isOp h1, pf_isOp h2, hl, hr]
+
+theorem pf_validO (cfg : Cfg) (w : W α) (h : pfTree nG w = true) : validO cfg nG (some w) = true := by
+  simp only [validO]; split
+  · exact pf_validateDeep w h
+  · exact pf_validate w h
+
+theorem pf_replaceTF (new : W α) : ∀ w : W α, pfTree nG w = true → replaceTF tc.toW new w = w := by
   apply pfTree_induction
   · intro w h
     have hne := h.ne_tc tc
@@ -217,7 +287,7 @@ theorem pf_replaceTF (new : W) : ∀ w, pfTree nG w = true → replaceTF tc.toW 
     have := (tc.toW_not_and l r).symm
     simp [replaceTF, this, hl, hr]
 
-theorem pf_removeTF : ∀ w, pfTree nG w = true → removeTF (some tc.toW) w = some w := by
+theorem pf_removeTF : ∀ w : W α, pfTree nG w = true → removeTF (some tc.toW) w = some w := by
   apply pfTree_induction
   · intro w h
     have hne := h.ne_tc tc
@@ -229,7 +299,7 @@ theorem pf_removeTF : ∀ w, pfTree nG w = true → removeTF (some tc.toW) w = s
     have := (tc.toW_not_and l r).symm
     simp [removeTF, this, hl, hr]
 
-theorem pf_removeTF_none : ∀ w, pfTree nG w = true → removeTF none w = some w := by
+theorem pf_removeTF_none : ∀ w : W α, pfTree nG w = true → removeTF none w = some w := by
   apply pfTree_induction
   · intro w h
     cases h with
@@ -239,8 +309,8 @@ theorem pf_removeTF_none : ∀ w, pfTree nG w = true → removeTF none w = some 
   · intro l r _ _ hl hr
     simp [removeTF, hl, hr]
 
-theorem pf_restSel (p : List Int) (tf : W) (htf : pfTree nG tf = false) (r : Row) :
-    ∀ w, pfTree nG w = true → restSel p tf w r = sel p w r := by
+theorem pf_restSel (e : Env α) (tf : W α) (htf : pfTree nG tf = false) (r : Row α) :
+    ∀ w, pfTree nG w = true → restSel e tf w r = sel e w r := by
   apply pfTree_induction
   · intro w h
     have hne : w ≠ tf := by
@@ -259,24 +329,24 @@ end pf
 
 
 section tcs
-variable {nG : Nat} (tc : TC)
+variable {nG : Nat} (tc : TC α)
 
 theorem tc_findTF_leaf : findTF tc.toW = .one tc.toW := by
   cases tc <;> simp [findTF, TC.toW, isTimeIdent]
 
-theorem tc_findTF : ∀ w, tcTree nG tc.toW w = true → findTF w = .one tc.toW := by
+theorem tc_findTF : ∀ w : W α, tcTree nG tc.toW w = true → findTF w = .one tc.toW := by
   apply tcTree_induction
   · exact tc_findTF_leaf tc
   · intro l r _ h2 hl; simp [findTF, hl, pf_findTF r h2, FT.merge]
   · intro l r h1 _ hr; simp [findTF, hr, pf_findTF l h1, FT.merge]
 
-theorem tc_identOk {w : W} (h : tcTree nG tc.toW w = true) : identOk nG w = true := by
+theorem tc_identOk {w : W α} (h : tcTree nG tc.toW w = true) : identOk nG w = true := by
   cases w <;> first | rfl | (cases tc <;> simp_all [tcTree, TC.toW])
 
-theorem tc_isOp {w : W} (h : tcTree nG tc.toW w = true) : w.isOperation = true := by
+theorem tc_isOp {w : W α} (h : tcTree nG tc.toW w = true) : w.isOperation = true := by
   cases w <;> first | rfl | (cases tc <;> simp_all [tcTree, TC.toW])
 
-theorem tc_validate : ∀ w, tcTree nG tc.toW w = true → validate nG w = true := by
+theorem tc_validate : ∀ w : W α, tcTree nG tc.toW w = true → validate nG w = true := by
   apply tcTree_induction
   · cases tc <;> simp [validate, TC.toW, allowedOp, identOk, allowedCol]
   · intro l r h1 h2 hl
@@ -284,65 +354,80 @@ theorem tc_validate : ∀ w, tcTree nG tc.toW w = true → validate nG w = true 
   · intro l r h1 h2 hr
     simp [validate, allowedOp, tc_identOk tc h2, pf_identOk h1, tc_isOp tc h2, pf_isOp h1, hr, pf_validate l h1]
 
-theorem restSel_leaf (p : List Int) (r : Row) : restSel p tc.toW tc.toW r = true := by
+theorem tc_validateDeep : ∀ w : W α, tcTree nG tc.toW w = true → validateDeep nG w = true := by
+  apply tcTree_induction
+  · cases tc <;> simp [validateDeep, TC.toW, allowedOp, identOk, allowedCol]
+  · intro l r h1 h2 hl
+    simp [validateDeep, allowedOp, tc_identOk tc h1, pf_identOk h2, tc_isOp tc h1, pf_isOp h2, hl,
+      pf_validateDeep r h2]
+  · intro l r h1 h2 hr
+    simp [validateDeep, allowedOp, tc_identOk tc h2, pf_identOk h1, tc_isOp tc h2, pf_isOp h1, hr,
+      pf_validateDeep l h1]
+
+theorem tc_validO (cfg : Cfg) (w : W α) (h : tcTree nG tc.toW w = true) : validO cfg nG (some w) = true := by
+  simp only [validO]; split
+  · exact tc_validateDeep tc w h
+  · exact tc_validate tc w h
+
+theorem restSel_leaf (e : Env α) (r : Row α) : restSel e tc.toW tc.toW r = true := by
   unfold restSel
   split
   · rename_i e; exact absurd e (tc.toW_not_and _ _)
   · simp
 
-theorem tc_sel (p : List Int) (r : Row) : ∀ w, tcTree nG tc.toW w = true →
-    sel p w r = (sel p tc.toW r && restSel p tc.toW w r) := by
+theorem tc_sel (e : Env α) (r : Row α) : ∀ w : W α, tcTree nG tc.toW w = true →
+    sel e w r = (sel e tc.toW r && restSel e tc.toW w r) := by
   apply tcTree_induction
   · simp [restSel_leaf]
   · intro l x _ h2 hl
     rw [sel_and, hl]
     simp only [restSel]
-    rw [pf_restSel p tc.toW (tc.not_pfTree nG) r x h2, Bool.and_assoc]
+    rw [pf_restSel e tc.toW (tc.not_pfTree nG) r x h2, Bool.and_assoc]
   · intro l x h1 _ hr
     rw [sel_and, hr]
     simp only [restSel]
-    rw [pf_restSel p tc.toW (tc.not_pfTree nG) r l h1]
-    cases sel p l r <;> cases sel p tc.toW r <;> simp
+    rw [pf_restSel e tc.toW (tc.not_pfTree nG) r l h1]
+    cases sel e l r <;> cases sel e tc.toW r <;> simp
 
-theorem replaceTF_leaf (new : W) : replaceTF tc.toW new tc.toW = new := by
+theorem replaceTF_leaf (new : W α) : replaceTF tc.toW new tc.toW = new := by
   cases tc <;> simp [replaceTF, TC.toW]
 
-theorem tc_sel_replace (p : List Int) (r : Row) (new : W) : ∀ w, tcTree nG tc.toW w = true →
-    sel p (replaceTF tc.toW new w) r = (sel p new r && restSel p tc.toW w r) := by
+theorem tc_sel_replace (e : Env α) (r : Row α) (new : W α) : ∀ w : W α, tcTree nG tc.toW w = true →
+    sel e (replaceTF tc.toW new w) r = (sel e new r && restSel e tc.toW w r) := by
   apply tcTree_induction
   · simp [restSel_leaf, replaceTF_leaf]
   · intro l x _ h2 hl
     have := (tc.toW_not_and l x).symm
     simp only [replaceTF, this, if_false, sel_and, hl, pf_replaceTF tc new x h2, restSel]
-    rw [pf_restSel p tc.toW (tc.not_pfTree nG) r x h2, Bool.and_assoc]
+    rw [pf_restSel e tc.toW (tc.not_pfTree nG) r x h2, Bool.and_assoc]
   · intro l x h1 _ hr
     have := (tc.toW_not_and l x).symm
     simp only [replaceTF, this, if_false, sel_and, hr, pf_replaceTF tc new l h1, restSel]
-    rw [pf_restSel p tc.toW (tc.not_pfTree nG) r l h1]
-    cases sel p l r <;> cases sel p new r <;> simp
+    rw [pf_restSel e tc.toW (tc.not_pfTree nG) r l h1]
+    cases sel e l r <;> cases sel e new r <;> simp
 
 /-- selection predicate of an optional WHERE -/
-def selO (p : List Int) (w : Option W) (r : Row) : Bool :=
+def selO (e : Env α) (w : Option (W α)) (r : Row α) : Bool :=
   match w with
   | none => true
-  | some w => sel p w r
+  | some w => sel e w r
 
 theorem removeTF_leaf : removeTF (some tc.toW) tc.toW = none := by
   cases tc <;> simp [removeTF, TC.toW]
 
-theorem tc_remove (p : List Int) (r : Row) : ∀ w, tcTree nG tc.toW w = true →
-    selO p (removeTF (some tc.toW) w) r = restSel p tc.toW w r := by
+theorem tc_remove (e : Env α) (r : Row α) : ∀ w : W α, tcTree nG tc.toW w = true →
+    selO e (removeTF (some tc.toW) w) r = restSel e tc.toW w r := by
   apply tcTree_induction
   · simp [removeTF_leaf, selO, restSel_leaf]
   · intro l x _ h2 hl
     have := (tc.toW_not_and l x).symm
     simp only [removeTF, restSel, pf_removeTF tc x h2]
-    rw [pf_restSel p tc.toW (tc.not_pfTree nG) r x h2, ← hl]
+    rw [pf_restSel e tc.toW (tc.not_pfTree nG) r x h2, ← hl]
     cases removeTF (some tc.toW) l <;> simp [selO, sel_and, this]
   · intro l x h1 _ hr
     have := (tc.toW_not_and l x).symm
     simp only [removeTF, restSel, pf_removeTF tc l h1]
-    rw [pf_restSel p tc.toW (tc.not_pfTree nG) r l h1, ← hr]
+    rw [pf_restSel e tc.toW (tc.not_pfTree nG) r l h1, ← hr]
     cases removeTF (some tc.toW) x <;> simp [selO, sel_and, this]
 
 end tcs
@@ -350,65 +435,102 @@ end tcs
 
 /-! ### planTS on accepted queries -/
 
-theorem map_inject_zero (nG : Nat) (sels : List Sel) :
+theorem map_inject_zero (nG : Nat) (sels : List (Sel α)) :
     (if nG = 0 then sels else sels.map (injectSel nG)) = sels.map (injectSel nG) := by
   by_cases h : nG = 0
   · subst h
-    have : injectSel 0 = id := by funext s; simp [injectSel, injectVars]
+    have : (injectSel 0 : Sel α → Sel α) = id := by funext s; simp [injectSel, injectVars]
     simp [this]
   · simp [h]
 
-/-- what `planTS` returns when nothing is rejected and `find_time_filter` finds `tf` -/
-theorem planTS_eq (m : Meta) (q : Query) (ho : q.orderBy = false) (hg : q.groupBy = false)
-    (hh : q.having = false) (hf : q.offset = false) (hv : validO m.nG q.whereC = true) (tf : Option W)
-    (hft : ftOf q.whereC = (match tf with | some w => FT.one w | none => FT.none)) :
-    planTS m q = .ok
-      ⟨if m.nG = 0 then none else some (removeO tf q.whereC),
-       (branches m.window q.whereC tf).1.map (injectSel m.nG),
-       (branches m.window q.whereC tf).2, limitOf q.limit⟩ := by
+theorem planOk_eq (m : Meta) (pw : Option (W α)) (lim : Option Nat) (tf : Option (W α)) :
+    planOk m pw lim tf =
+      ⟨if m.nG = 0 then none else some (removeO tf pw),
+       (branches m.window pw tf).1.map (injectSel m.nG), (branches m.window pw tf).2, limitOf lim⟩ := by
+  simp [planOk, map_inject_zero]
+
+/-- what `planTS` returns when nothing is rejected and `find_time_filter` finds `t` -/
+theorem planTS_eq_some (cfg : Cfg) (m : Meta) (q : Query α) (ho : q.orderBy = false) (hg : q.groupBy = false)
+    (hh : q.having = false) (hf : q.offset = false) (hv : validO cfg m.nG q.whereC = true)
+    (t : W α) (hft : ftOf q.whereC = FT.one t) :
+    planTS cfg m q = .ok (planOk m (normStep cfg q.whereC t).1 q.limit (some (normStep cfg q.whereC t).2)) := by
   unfold planTS
   rw [hft]
-  cases tf with
-  | none => simp [ho, hg, hh, hf, hv, planOk, map_inject_zero]
-  | some t => simp [ho, hg, hh, hf, hv, planOk, map_inject_zero]
+  simp [ho, hg, hh, hf, hv]
+
+theorem planTS_eq_none (cfg : Cfg) (m : Meta) (q : Query α) (ho : q.orderBy = false) (hg : q.groupBy = false)
+    (hh : q.having = false) (hf : q.offset = false) (hv : validO cfg m.nG q.whereC = true)
+    (hft : ftOf q.whereC = FT.none) :
+    planTS cfg m q = .ok (planOk m q.whereC q.limit none) := by
+  unfold planTS
+  rw [hft]
+  simp [ho, hg, hh, hf, hv]
+
+theorem replaceTF_self (tf : W α) : ∀ w : W α, replaceTF tf tf w = w := by
+  intro w
+  induction w with
+  | bin op l r ihl ihr =>
+    simp only [replaceTF, ihl, ihr]
+    split
+    · rename_i h; exact h.symm
+    · rfl
+  | _ =>
+    simp only [replaceTF]
+    split
+    · rename_i h; exact h.symm
+    · rfl
+
+theorem normTF_tc (tc : TC α) : normTF tc.toW = tc.toW := by
+  cases tc <;> rfl
+
+/-- on the domain of the row theorem the order column is already on the left: the normalisation of
+fixes/C15_4.diff does nothing -/
+theorem normStep_tc (cfg : Cfg) (pw : Option (W α)) (tc : TC α) : normStep cfg pw tc.toW = (pw, tc.toW) := by
+  unfold normStep
+  split
+  · rw [normTF_tc]
+    cases pw with
+    | none => rfl
+    | some w => simp [replaceTF_self]
+  · rfl
 
 /-! ### assembling the fetched rows -/
 
-theorem fetched_two (p : List Int) (T : List Row) (n : Nat) (cA cB : W) (fA fB : Row → Bool)
-    (hA : ∀ r, sel p cA r = fA r) (hB : ∀ r, sel p cB r = fB r) :
-    ∃ L, IsLastW n (T.filter fA) L ∧ (fetched p T [⟨cA, some n⟩, ⟨cB, none⟩]).Perm (T.filter fB ++ L) := by
-  refine ⟨evalSel p T ⟨cA, some n⟩, evalSel_limited p T cA n fA hA, ?_⟩
+theorem fetched_two (e : Env α) (T : List (Row α)) (n : Nat) (cA cB : W α) (fA fB : Row α → Bool)
+    (hA : ∀ r, sel e cA r = fA r) (hB : ∀ r, sel e cB r = fB r) :
+    ∃ L, IsLastW n (T.filter fA) L ∧ (fetched e T [⟨cA, some n⟩, ⟨cB, none⟩]).Perm (T.filter fB ++ L) := by
+  refine ⟨evalSel e T ⟨cA, some n⟩, evalSel_limited e T cA n fA hA, ?_⟩
   simp only [fetched, List.map, List.flatten_cons, List.flatten_nil, List.append_nil]
-  exact List.perm_append_comm.trans ((evalSel_unlimited p T cB fB hB).append_right _)
+  exact List.perm_append_comm.trans ((evalSel_unlimited e T cB fB hB).append_right _)
 
-theorem fetched_window (p : List Int) (T : List Row) (n : Nat) (cA : W) (fA : Row → Bool)
-    (hA : ∀ r, sel p cA r = fA r) :
-    ∃ L, IsLastW n (T.filter fA) L ∧ (fetched p T [⟨cA, some n⟩]).Perm ([] ++ L) := by
-  refine ⟨evalSel p T ⟨cA, some n⟩, evalSel_limited p T cA n fA hA, ?_⟩
+theorem fetched_window (e : Env α) (T : List (Row α)) (n : Nat) (cA : W α) (fA : Row α → Bool)
+    (hA : ∀ r, sel e cA r = fA r) :
+    ∃ L, IsLastW n (T.filter fA) L ∧ (fetched e T [⟨cA, some n⟩]).Perm ([] ++ L) := by
+  refine ⟨evalSel e T ⟨cA, some n⟩, evalSel_limited e T cA n fA hA, ?_⟩
   simp [fetched]
 
-theorem fetched_all (p : List Int) (T : List Row) (cB : W) (fB : Row → Bool)
-    (hB : ∀ r, sel p cB r = fB r) :
-    (fetched p T [⟨cB, none⟩]).Perm (T.filter fB ++ []) := by
+theorem fetched_all (e : Env α) (T : List (Row α)) (cB : W α) (fB : Row α → Bool)
+    (hB : ∀ r, sel e cB r = fB r) :
+    (fetched e T [⟨cB, none⟩]).Perm (T.filter fB ++ []) := by
   simp only [fetched, List.map, List.flatten_cons, List.flatten_nil, List.append_nil]
-  exact evalSel_unlimited p T cB fB hB
+  exact evalSel_unlimited e T cB fB hB
 
-theorem onTime_true (r : Row) : onTime (fun _ => true) r = r.t.isSome := by
+theorem onTime_true (r : Row α) : onTime (fun _ => true) r = r.t.isSome := by
   cases h : r.t <;> simp [onTime, h]
 
-theorem onTime_false (r : Row) : onTime (fun _ => false) r = false := by
+theorem onTime_false (r : Row α) : onTime (fun _ => false) r = false := by
   cases h : r.t <;> simp [onTime, h]
 
-theorem removeTF_notNull (tc : TC) : removeTF (some tc.toW) notNull = some notNull := by
+theorem removeTF_notNull (tc : TC α) : removeTF (some tc.toW) notNull = some notNull := by
   cases tc <;> simp [removeTF, notNull, TC.toW]
 
 /-- selection predicate of the `> LATEST` / `= LATEST` select -/
-theorem sel_latest_shape {nG : Nat} (tc : TC) (p : List Int) (r : Row) (w : W)
+theorem sel_latest_shape {nG : Nat} (tc : TC α) (e : Env α) (r : Row α) (w : W α)
     (hw : tcTree nG tc.toW w = true) :
-    sel p ((removeTF (some tc.toW) (addNotNull (some w))).getD .null) r
-      = (restSel p tc.toW w r && r.t.isSome) := by
+    sel e ((removeTF (some tc.toW) (addNotNull (some w))).getD .null) r
+      = (restSel e tc.toW w r && r.t.isSome) := by
   have hne : (W.bin .and w notNull) ≠ tc.toW := (tc.toW_not_and _ _).symm
-  have h := tc_remove tc p r w hw
+  have h := tc_remove tc e r w hw
   simp only [addNotNull, removeTF, removeTF_notNull]
   cases hr : removeTF (some tc.toW) w with
   | none => simp [hr, selO] at h; simp [hne, sel_notNull, ← h]
@@ -418,105 +540,108 @@ theorem sel_latest_shape {nG : Nat} (tc : TC) (p : List Int) (r : Row) (w : W)
 /-! ### the branch table on the domain, and the selection predicate of each generated select -/
 
 /-- the rewritten time filter of the window select -/
-def lowW : TC → W
+def lowW : TC α → W α
   | .gt c => .bin .le (.ident .time) (.const c)
   | .ge c => .bin .lt (.ident .time) (.const c)
   | .eq c => .bin .le (.ident .time) (.const c)
   | .btw a _ => .bin .lt (.ident .time) (.const a)
   | _ => .null
 
-def selWin (n : Nat) (tc : TC) (w : W) : Sel := ⟨addNotNull (some (replaceTF tc.toW (lowW tc) w)), some n⟩
-def selAll (w : W) : Sel := ⟨addNotNull (some w), none⟩
-def selLatest (n : Nat) (tc : TC) (w : W) : Sel :=
+def selWin (n : Nat) (tc : TC α) (w : W α) : Sel α := ⟨addNotNull (some (replaceTF tc.toW (lowW tc) w)), some n⟩
+def selAll (w : W α) : Sel α := ⟨addNotNull (some w), none⟩
+def selLatest (n : Nat) (tc : TC α) (w : W α) : Sel α :=
   ⟨(removeTF (some tc.toW) (addNotNull (some w))).getD .null, some n⟩
 
-def branchesSpec (n : Nat) (tc : TC) (w : W) : List Sel × Option W :=
+def branchesSpec (n : Nat) (tc : TC α) (w : W α) : List (Sel α) × Option (W α) :=
   match tc with
   | .gt _ | .ge _ | .btw _ _ => ([selWin n tc w, selAll w], some tc.toW)
   | .eq c => ([selWin n tc w], some (TC.gt c).toW)
   | .lt _ | .le _ => ([selAll w], some tc.toW)
   | .gtLatest | .eqLatest => ([selLatest n tc w], some tc.toW)
 
-theorem branches_dom (n : Nat) (tc : TC) (w : W) :
+theorem branches_dom (n : Nat) (tc : TC α) (w : W α) :
     branches n (some w) (some tc.toW) = branchesSpec n tc w := by
   cases tc <;> rfl
 
 theorem bool_perm (a b c d : Bool) : (((a && b) && c) && d) = (((c && b) && d) && a) := by
   cases a <;> cases b <;> cases c <;> cases d <;> rfl
 
-theorem base_some {nG : Nat} (tc : TC) (p : List Int) (w : W) (r : Row) :
-    base p nG (some tc) (some w) r = ((r.t.isSome && restSel p tc.toW w r) && inPart p nG r) := by
+theorem base_some {nG : Nat} (tc : TC α) (e : Env α) (w : W α) (r : Row α) :
+    base e nG (some tc) (some w) r = ((r.t.isSome && restSel e tc.toW w r) && inPart e nG r) := by
   simp [base, restSelO]
 
-theorem selWin_pred {nG : Nat} (tc : TC) (p : List Int) (r : Row) (w : W) (n : Nat) (f : Int → Bool)
-    (hd : tcTree nG tc.toW w = true) (hnew : sel p (lowW tc) r = onTime f r) :
-    sel p (injectSel nG (selWin n tc w)).whereC r = (base p nG (some tc) (some w) r && onTime f r) := by
+theorem selWin_pred {nG : Nat} (tc : TC α) (e : Env α) (r : Row α) (w : W α) (n : Nat) (f : α → Bool)
+    (hd : tcTree nG tc.toW w = true) (hnew : sel e (lowW tc) r = onTime f r)
+    (hok : e.ns = true ∨ nonNullFrom e nG 0 = true) :
+    sel e (injectSel nG (selWin n tc w)).whereC r = (base e nG (some tc) (some w) r && onTime f r) := by
   simp only [injectSel, selWin]
-  rw [sel_injectVars, sel_addNotNull_some, tc_sel_replace tc p r _ w hd, hnew, base_some]
+  rw [sel_injectVars _ _ _ _ _ hok, sel_addNotNull_some, tc_sel_replace tc e r _ w hd, hnew, base_some]
   exact bool_perm _ _ _ _
 
-theorem selAll_pred {nG : Nat} (tc : TC) (p : List Int) (r : Row) (w : W) (f : Int → Bool)
-    (hd : tcTree nG tc.toW w = true) (htc : sel p tc.toW r = onTime f r) :
-    sel p (injectSel nG (selAll w)).whereC r = (base p nG (some tc) (some w) r && onTime f r) := by
+theorem selAll_pred {nG : Nat} (tc : TC α) (e : Env α) (r : Row α) (w : W α) (f : α → Bool)
+    (hd : tcTree nG tc.toW w = true) (htc : sel e tc.toW r = onTime f r)
+    (hok : e.ns = true ∨ nonNullFrom e nG 0 = true) :
+    sel e (injectSel nG (selAll w)).whereC r = (base e nG (some tc) (some w) r && onTime f r) := by
   simp only [injectSel, selAll]
-  rw [sel_injectVars, sel_addNotNull_some, tc_sel tc p r w hd, htc, base_some]
+  rw [sel_injectVars _ _ _ _ _ hok, sel_addNotNull_some, tc_sel tc e r w hd, htc, base_some]
   exact bool_perm _ _ _ _
 
-theorem selLatest_pred {nG : Nat} (tc : TC) (p : List Int) (r : Row) (w : W) (n : Nat)
-    (hd : tcTree nG tc.toW w = true) :
-    sel p (injectSel nG (selLatest n tc w)).whereC r
-      = (base p nG (some tc) (some w) r && onTime (fun _ => true) r) := by
+theorem selLatest_pred {nG : Nat} (tc : TC α) (e : Env α) (r : Row α) (w : W α) (n : Nat)
+    (hd : tcTree nG tc.toW w = true) (hok : e.ns = true ∨ nonNullFrom e nG 0 = true) :
+    sel e (injectSel nG (selLatest n tc w)).whereC r
+      = (base e nG (some tc) (some w) r && onTime (fun _ => true) r) := by
   simp only [injectSel, selLatest]
-  rw [sel_injectVars, sel_latest_shape tc p r w hd, base_some, onTime_true]
+  rw [sel_injectVars _ _ _ _ _ hok, sel_latest_shape tc e r w hd, base_some, onTime_true]
   simp only [inPart]
-  cases restSel p tc.toW w r <;> cases r.t.isSome <;> cases inPartFrom p r nG 0 <;> rfl
+  cases restSel e tc.toW w r <;> cases r.t.isSome <;> cases inPartFrom e r nG 0 <;> rfl
 
-theorem sel_tc_cond (tc : TC) (p : List Int) (r : Row)
-    (h : tc ≠ .gtLatest ∧ tc ≠ .eqLatest ∧ ∀ c, tc ≠ .eq c) : sel p tc.toW r = onTime tc.cond r := by
+theorem sel_tc_cond (tc : TC α) (e : Env α) (r : Row α)
+    (h : tc ≠ .gtLatest ∧ tc ≠ .eqLatest ∧ ∀ c, tc ≠ .eq c) : sel e tc.toW r = onTime tc.cond r := by
   cases tc with
-  | gt c => exact (sel_time_cmp p r c).1
-  | ge c => exact (sel_time_cmp p r c).2.1
-  | lt c => exact (sel_time_cmp p r c).2.2.1
-  | le c => exact (sel_time_cmp p r c).2.2.2
-  | btw a b => exact sel_time_btw p r a b
+  | gt c => exact (sel_time_cmp e r c).1
+  | ge c => exact (sel_time_cmp e r c).2.1
+  | lt c => exact (sel_time_cmp e r c).2.2.1
+  | le c => exact (sel_time_cmp e r c).2.2.2
+  | btw a b => exact sel_time_btw e r a b
   | eq c => exact absurd rfl (h.2.2 c)
   | gtLatest => exact absurd rfl h.1
   | eqLatest => exact absurd rfl h.2.1
 
-theorem filter_cond_false (f : Row → Bool) (T : List Row) :
+theorem filter_cond_false (f : Row α → Bool) (T : List (Row α)) :
     T.filter (fun r => f r && onTime (fun _ => false) r) = [] := by
   have : (fun r => f r && onTime (fun _ => false) r) = fun _ => false := by
     funext r; simp [onTime_false]
   rw [this]; simp
 
 /-- no time condition -/
-theorem sel_none_pred {nG : Nat} (p : List Int) (r : Row) :
-    sel p (injectSel nG ⟨addNotNull none, none⟩).whereC r = (base p nG none none r && true) := by
+theorem sel_none_pred {nG : Nat} (e : Env α) (r : Row α) (hok : e.ns = true ∨ nonNullFrom e nG 0 = true) :
+    sel e (injectSel nG ⟨addNotNull none, none⟩).whereC r = (base e nG none none r && true) := by
   simp only [injectSel, addNotNull]
-  rw [sel_injectVars, sel_notNull]
+  rw [sel_injectVars _ _ _ _ _ hok, sel_notNull]
   simp [base, restSelO, inPart]
 
-theorem sel_pf_pred {nG : Nat} (p : List Int) (r : Row) (w : W) (hd : pfTree nG w = true) :
-    sel p (injectSel nG ⟨addNotNull (some w), none⟩).whereC r = (base p nG none (some w) r && true) := by
+theorem sel_pf_pred {nG : Nat} (e : Env α) (r : Row α) (w : W α) (hd : pfTree nG w = true)
+    (hok : e.ns = true ∨ nonNullFrom e nG 0 = true) :
+    sel e (injectSel nG ⟨addNotNull (some w), none⟩).whereC r = (base e nG none (some w) r && true) := by
   simp only [injectSel]
-  rw [sel_injectVars, sel_addNotNull_some]
-  have : restSel p W.null w r = sel p w r := pf_restSel p W.null (by rfl) r w hd
+  rw [sel_injectVars _ _ _ _ _ hok, sel_addNotNull_some]
+  have : restSel e W.null w r = sel e w r := pf_restSel e W.null (by rfl) r w hd
   simp only [base, restSelO, Option.map, Option.getD, this, inPart, Bool.and_true]
-  cases sel p w r <;> cases r.t.isSome <;> simp
+  cases sel e w r <;> cases r.t.isSome <;> simp
 
 
 /-! ### T15.3: validate against the independent reading; no crash -/
 
-theorem validate_nonop (nG : Nat) {w : W} (h : w.isOperation = false) : validate nG w = true := by
+theorem validate_nonop (nG : Nat) {w : W α} (h : w.isOperation = false) : validate nG w = true := by
   cases w <;> simp_all [W.isOperation, validate]
 
-theorem identOk_bin (nG : Nat) (op : Op) (l r : W) : identOk nG (.bin op l r) = true := rfl
-theorem identOk_btw (nG : Nat) (x a b : W) : identOk nG (.btw x a b) = true := rfl
+theorem identOk_bin (nG : Nat) (op : Op) (l r : W α) : identOk nG (.bin op l r) = true := rfl
+theorem identOk_btw (nG : Nat) (x a b : W α) : identOk nG (.btw x a b) = true := rfl
 
-theorem andOk_nonop {w : W} (h : w.isOperation = false) : andOk w = true := by
+theorem andOk_nonop {w : W α} (h : w.isOperation = false) : andOk w = true := by
   cases w <;> simp_all [W.isOperation, andOk]
 
-theorem validate_spec (nG : Nat) : ∀ w, visible w = true →
+theorem validate_spec (nG : Nat) : ∀ w : W α, visible w = true →
     (validate nG w && identOk nG w) = (opsOk w && colsOk nG w && andOk w) := by
   intro w
   induction w with
@@ -547,10 +672,44 @@ theorem validate_spec (nG : Nat) : ∀ w, visible w = true →
   | «opaque» f => intro hv; simp_all [visible, validate, identOk, opsOk, colsOk, andOk]
   | _ => intro _; simp [validate, identOk, opsOk, colsOk, andOk]
 
-theorem identOk_op (nG : Nat) {w : W} (h : w.isOperation = true) : identOk nG w = true := by
+/-- the repaired validation is exactly the independent reading, on every tree -/
+theorem validateDeep_spec (nG : Nat) : ∀ w : W α,
+    (validateDeep nG w && identOk nG w) = (opsOk w && colsOk nG w && andOk w) := by
+  intro w
+  induction w with
+  | bin op l r ihl ihr =>
+    simp only [validateDeep, identOk_bin, opsOk, colsOk, andOk, Bool.and_true]
+    generalize (op != Op.and || (l.isOperation && r.isOperation)) = k
+    have : (allowedOp op && opsOk l && opsOk r && (colsOk nG l && colsOk nG r) && (k && andOk l && andOk r))
+        = (allowedOp op && k && ((opsOk l && colsOk nG l && andOk l) && (opsOk r && colsOk nG r && andOk r))) := by
+      ac_rfl
+    rw [this, ← ihl, ← ihr]; ac_rfl
+  | btw x a b ihx iha ihb =>
+    simp only [validateDeep, identOk_btw, opsOk, colsOk, andOk, Bool.and_true]
+    have : (opsOk x && opsOk a && opsOk b && (colsOk nG x && colsOk nG a && colsOk nG b) && (andOk x && andOk a && andOk b))
+        = ((opsOk x && colsOk nG x && andOk x) && (opsOk a && colsOk nG a && andOk a)
+            && (opsOk b && colsOk nG b && andOk b)) := by ac_rfl
+    rw [this, ← ihx, ← iha, ← ihb]; ac_rfl
+  | un x _ => simp [validateDeep, opsOk]
+  | «opaque» f => simp [validateDeep, identOk, opsOk, colsOk, andOk]
+  | _ => simp [validateDeep, identOk, opsOk, colsOk, andOk]
+
+theorem validateDeep_le (nG : Nat) : ∀ w : W α, validateDeep nG w = true → validate nG w = true := by
+  intro w
+  induction w with
+  | bin op l r ihl ihr =>
+    simp only [validateDeep, validate, Bool.and_eq_true]
+    intro h; exact ⟨⟨h.1.1, ihl h.1.2⟩, ihr h.2⟩
+  | btw x a b ihx iha _ =>
+    simp only [validateDeep, validate, Bool.and_eq_true]
+    intro h; exact ⟨⟨h.1.1.1, ihx h.1.1.2⟩, iha h.1.2⟩
+  | un x _ => simp [validateDeep]
+  | _ => simp [validate]
+
+theorem identOk_op (nG : Nat) {w : W α} (h : w.isOperation = true) : identOk nG w = true := by
   cases w <;> simp_all [W.isOperation, identOk]
 
-theorem findTF_no_crash (nG : Nat) : ∀ w, w.isOperation = true → validate nG w = true →
+theorem findTF_no_crash (nG : Nat) : ∀ w : W α, w.isOperation = true → validate nG w = true →
     findTF w ≠ .crash := by
   intro w
   induction w with
@@ -569,5 +728,109 @@ theorem findTF_no_crash (nG : Nat) : ∀ w, w.isOperation = true → validate nG
   | btw x a b _ _ _ => intro _ _; simp only [findTF]; split <;> simp
   | un x _ => intro _ hv; simp [validate] at hv
   | _ => intro h; simp [W.isOperation] at h
+
+
+/-! ### order column on the right (`c < t`): what fixes/C15_4.diff (`Cfg.normalizeTF`) does -/
+
+section rcs
+variable {nG : Nat} (rc : RC α)
+
+theorem RC.toW_not_and : ∀ l r : W α, rc.toW ≠ .bin .and l r := by
+  intro l r; cases rc <;> simp [RC.toW]
+
+theorem RC.not_pf (nG : Nat) : isPF nG rc.toW = false := by
+  cases rc <;> rfl
+
+theorem normTF_rc : normTF rc.toW = rc.mirror.toW := by
+  cases rc <;> rfl
+
+theorem PFShape.ne_rc {w : W α} (h : PFShape nG w) : w ≠ rc.toW := by
+  intro e
+  have h1 := rc.not_pf nG
+  rw [← e] at h1
+  cases h <;> simp_all [isPF, isCmp]
+
+theorem pf_replaceTF_rc (new : W α) : ∀ w : W α, pfTree nG w = true → replaceTF rc.toW new w = w := by
+  apply pfTree_induction
+  · intro w h
+    have hne := h.ne_rc rc
+    cases h with
+    | cmp op i c hi hop => cases rc <;> simp_all [replaceTF, RC.toW]
+    | inn i vs hi => cases rc <;> simp_all [replaceTF, RC.toW]
+    | btw i a b hi => simp_all [replaceTF]
+  · intro l r _ _ hl hr
+    have := (rc.toW_not_and l r).symm
+    simp [replaceTF, this, hl, hr]
+
+theorem rc_findTF : ∀ w : W α, tcTree nG rc.toW w = true → findTF w = .one rc.toW := by
+  apply tcTree_induction
+  · cases rc <;> simp [findTF, RC.toW, isTimeIdent]
+  · intro l r _ h2 hl; simp [findTF, hl, pf_findTF r h2, FT.merge]
+  · intro l r h1 _ hr; simp [findTF, hr, pf_findTF l h1, FT.merge]
+
+theorem rc_identOk {w : W α} (h : tcTree nG rc.toW w = true) : identOk nG w = true := by
+  cases w <;> first | rfl | (cases rc <;> simp_all [tcTree, RC.toW])
+
+theorem rc_isOp {w : W α} (h : tcTree nG rc.toW w = true) : w.isOperation = true := by
+  cases w <;> first | rfl | (cases rc <;> simp_all [tcTree, RC.toW])
+
+theorem rc_validate : ∀ w : W α, tcTree nG rc.toW w = true → validate nG w = true := by
+  apply tcTree_induction
+  · cases rc <;> simp [validate, RC.toW, allowedOp, identOk, allowedCol]
+  · intro l r h1 h2 hl
+    simp [validate, allowedOp, rc_identOk rc h1, pf_identOk h2, rc_isOp rc h1, pf_isOp h2, hl, pf_validate r h2]
+  · intro l r h1 h2 hr
+    simp [validate, allowedOp, rc_identOk rc h2, pf_identOk h1, rc_isOp rc h2, pf_isOp h1, hr, pf_validate l h1]
+
+theorem rc_validateDeep : ∀ w : W α, tcTree nG rc.toW w = true → validateDeep nG w = true := by
+  apply tcTree_induction
+  · cases rc <;> simp [validateDeep, RC.toW, allowedOp, identOk, allowedCol]
+  · intro l r h1 h2 hl
+    simp [validateDeep, allowedOp, rc_identOk rc h1, pf_identOk h2, rc_isOp rc h1, pf_isOp h2, hl,
+      pf_validateDeep r h2]
+  · intro l r h1 h2 hr
+    simp [validateDeep, allowedOp, rc_identOk rc h2, pf_identOk h1, rc_isOp rc h2, pf_isOp h1, hr,
+      pf_validateDeep l h1]
+
+theorem rc_validO (cfg : Cfg) (w : W α) (h : tcTree nG rc.toW w = true) : validO cfg nG (some w) = true := by
+  simp only [validO]; split
+  · exact rc_validateDeep rc w h
+  · exact rc_validate rc w h
+
+theorem tcTree_self (tc : TC α) : tcTree nG tc.toW tc.toW = true := by
+  cases tc <;> simp [tcTree, TC.toW]
+
+theorem replaceTF_leaf_rc (new : W α) : replaceTF rc.toW new rc.toW = new := by
+  cases rc <;> simp [replaceTF, RC.toW]
+
+/-- the normalised WHERE is in the domain of the row theorem, with the mirrored class -/
+theorem rc_replace_tcTree : ∀ w : W α, tcTree nG rc.toW w = true →
+    tcTree nG rc.mirror.toW (replaceTF rc.toW rc.mirror.toW w) = true := by
+  apply tcTree_induction
+  · rw [replaceTF_leaf_rc]; exact tcTree_self _
+  · intro l r _ h2 hl
+    have := (rc.toW_not_and l r).symm
+    simp [replaceTF, this, tcTree, hl, pf_replaceTF_rc rc _ r h2, h2]
+  · intro l r h1 _ hr
+    have := (rc.toW_not_and l r).symm
+    simp [replaceTF, this, tcTree, hr, pf_replaceTF_rc rc _ l h1, h1]
+
+theorem sel_rc_mirror (e : Env α) (r : Row α) : sel e rc.mirror.toW r = sel e rc.toW r := by
+  cases rc <;> cases h : r.t <;>
+    simp [sel, ev, val, cmp2, RC.toW, RC.mirror, TC.toW, h, vgt, vge, vlt, vle, veq, eq_comm]
+
+/-- and it means the same as the user's WHERE -/
+theorem rc_replace_sel (e : Env α) (r : Row α) : ∀ w : W α, tcTree nG rc.toW w = true →
+    sel e (replaceTF rc.toW rc.mirror.toW w) r = sel e w r := by
+  apply tcTree_induction
+  · rw [replaceTF_leaf_rc]; exact sel_rc_mirror rc e r
+  · intro l x _ h2 hl
+    have := (rc.toW_not_and l x).symm
+    simp only [replaceTF, this, if_false, sel_and, hl, pf_replaceTF_rc rc _ x h2]
+  · intro l x h1 _ hr
+    have := (rc.toW_not_and l x).symm
+    simp only [replaceTF, this, if_false, sel_and, hr, pf_replaceTF_rc rc _ l h1]
+
+end rcs
 
 end MindsVerif.TS
